@@ -13,10 +13,14 @@ cd "$WT"
 # demonstrations locate the repository relative to their own path (<worktree>/mutants/<m>/demo.py)
 mkdir -p "$WT/mutants/m" && cp "$M"/demo.py "$WT/mutants/m/demo.py"
 DEMO="$WT/mutants/m/demo.py"
+if [ -z "${SKIP_DEMO:-}" ]; then
 echo "== demo on clean tree"; PYTHONPATH="$WT/src:$WT" MPLBACKEND=Agg timeout 1800 /venv/bin/python -W ignore "$DEMO" >/dev/null 2>&1; echo "demo(clean) rc=$?"
+fi
 git apply "$M/patch.diff" || { echo "PATCH DOES NOT APPLY"; exit 2; }
+if [ -z "${SKIP_DEMO:-}" ]; then
 echo "== baseline tests with the change"; PYTHONPATH="$WT/src:$WT" /venv/bin/python -m pytest -q -p no:cacheprovider --timeout=900 2>&1 | tail -1
 echo "== demo with the change"; PYTHONPATH="$WT/src:$WT" MPLBACKEND=Agg timeout 1800 /venv/bin/python -W ignore "$DEMO" 2>&1 | tail -3; echo "demo(mutant) rc=${PIPESTATUS[0]}"
+fi
 cd "$VERIF_DIR"
 for id in "$@"; do
   echo "== check $id against the change"
